@@ -501,6 +501,12 @@ func genRegs(r *RNG) string {
 }
 
 func genSMServer(r *RNG, n int, op string, emit func(string)) {
+	if op == "many" {
+		for _, k := range []int{3, 20, 40, 70} {
+			emit(fmt.Sprintf("smserver many n=%d", k))
+		}
+		return
+	}
 	locals := []string{"v4", "v4", "v4", "loop", "multi", "multiloop", "v6", "v6g", "v6z", "mix6", "empty", "badport"}
 	if op == "multi" {
 		for i := 0; i < n; i++ {
